@@ -11,7 +11,7 @@ static std::vector<long long> g_prio;
 struct PrioLess { bool operator()(uint32_t a, uint32_t b) const { return g_prio[a] < g_prio[b]; } };
 struct PrioGreaterMirror { bool operator()(uint32_t a, uint32_t b) const { return -g_prio[a] > -g_prio[b]; } };
 
-static const char* NAMES[] = {"push", "remove", "top", "pop", "pop", "setprio", "update", "update_all", "build", "build", "build", "clear"};
+static const char* NAMES[] = {"push", "remove", "top", "pop", "pop", "setprio", "update", "update_all", "build", "build", "build", "clear", "reserve"};
 
 template <class Heap>
 static void run(Out& out, int variant, int nkeys, std::istringstream& is) {
@@ -48,6 +48,7 @@ static void run(Out& out, int variant, int nkeys, std::istringstream& is) {
         case 9: hp.build_heap(list); ev.arr("list", list); break;
         case 10: { ev.arr("list", list); std::vector<uint32_t> tmp = list; hp.build_heap(std::move(tmp)); break; }
         case 11: hp.clear(); break;
+        case 12: hp.reserve(static_cast<size_t>(k)); ev.num("cap", (long long)hp.capacity()); break;     // no abstract effect; capacity() >= k afterwards
         }
         emit(ev);
     }
